@@ -61,7 +61,8 @@ def extra_pairs():
     huge = b"q" * (1 << 20)
     return [(b"pass", b"pass\x00"), (b"pass", b"Pass"), (b"pass", b"pasr"), (b"pass", b"pass "), (b"\xff", b"\xfe"),
             (big, big[:-1]), (big, big + b"p"), (huge, huge[:-1] + b"r"), (b"", b"\x00"), (b"a" * 64, b"a" * 65),
-            (hashlib.sha256(b"x").digest(), b"x")]
+            (hashlib.sha256(b"x").digest(), b"x"), (b" pass", b"pass"), (b"pass\n", b"pass"), (b"pass\r\n", b"pass\n"),
+            (b"\xc3\xa9", b"\xe9"), (b"\xc3\xa9", b"e\xcc\x81"), (b"\xc3\xa9", b"\xc3"), (b"\xff\xfe", b"\xff"), (b"pa:ss", b"pa"), (b"pa$ss", b"pa")]
 
 
 def corruptions(h):
